@@ -11,12 +11,41 @@ def exactly_once(fn, start, is_consume, is_stop=None, max_states=4000):
     State machine per path: owned -> consumed; consume while consumed = double; stop/exit while owned = leak."""
     leaks, doubles = [], []
     seen = set()
-    work = collections.deque([(start[0], start[1] + 1, "owned")])
+    # correlated branches: a test of a plain local (`res != 0`, `!res`, `res`) whose address is never taken fixes its truth until the next store to it; a later test of the same
+    # local follows only the consistent edge (`if (res == 0) link; ...; if (res != 0) free;` has two feasible paths, not four)
+    addr_taken = set()
+    for blk in fn.blocks.values() if isinstance(fn.blocks, dict) else fn.blocks:
+        for el in blk.elems:
+            for q in walk(el.e):
+                if is_e(q, "addr") and is_e(strip(q[1]), "var"):
+                    addr_taken.add(strip(q[1])[1])
+
+    def test_var(cond):
+        c, t = negate_truth(cond, True)
+        if is_e(c, "var") and len(c) > 2 and c[2] in ("local", "param") and c[1] not in addr_taken:
+            return c[1], t
+        return None, None
+
+    def stored(e):
+        out = set()
+        for q in walk(e):
+            tgt = None
+            if is_e(q, "asg"):
+                tgt = q[2]
+            elif is_e(q, "incdec"):
+                tgt = q[3] if len(q) > 3 else None
+            elif is_e(q, "decl"):
+                out.add(q[1])
+            if tgt is not None and is_e(strip(tgt), "var"):
+                out.add(strip(tgt)[1])
+        return out
+
+    work = collections.deque([(start[0], start[1] + 1, "owned", frozenset())])
     while work and len(seen) < max_states:
-        b, i, st = work.popleft()
-        if (b, i, st) in seen:
+        b, i, st, facts = work.popleft()
+        if (b, i, st, facts) in seen:
             continue
-        seen.add((b, i, st))
+        seen.add((b, i, st, facts))
         blk = fn.blocks[b]
         ended = False
         for el in blk.elems[i:]:
@@ -34,6 +63,10 @@ def exactly_once(fn, start, is_consume, is_stop=None, max_states=4000):
                     leaks.append(el)
                 ended = True
                 break
+            if facts:
+                w = stored(el.e)
+                if w:
+                    facts = frozenset(x for x in facts if x[0] not in w)
         if ended:
             continue
         if blk.noreturn:
@@ -42,6 +75,20 @@ def exactly_once(fn, start, is_consume, is_stop=None, max_states=4000):
             if st == "owned":
                 leaks.append("exit")
             continue
+        v = t = None
+        if blk.term is not None and blk.term.get("cond") is not None and sorted(l for _, l in blk.succ) == ["F", "T"]:
+            w = stored(blk.term["cond"])
+            if w:
+                facts = frozenset(x for x in facts if x[0] not in w)
+            else:
+                v, t = test_var(blk.term["cond"])
+        known = dict(facts).get(v) if v is not None else None
         for s, lab in blk.succ:
-            work.append((s, 0, st))
+            if v is None:
+                work.append((s, 0, st, facts))
+                continue
+            truth = (lab == "T") == t        # truth of "v != 0" on this edge
+            if known is not None and known != truth:
+                continue
+            work.append((s, 0, st, frozenset(set(facts) | {(v, truth)})))
     return {"leaks": leaks, "doubles": doubles}
